@@ -651,8 +651,9 @@ class Poly2d:
         self._A = A
         self._safe_to_grid = False
 
-        _, zx, _, zy, *_ = A
-        if abs(zx) < tol and abs(zy) < tol:
+        sx, zx, _, zy, sy, *_ = A
+        # relative to scale terms: A is a normalizing transform with tiny scale
+        if abs(zx) <= tol * abs(sx) and abs(zy) <= tol * abs(sy):
             self._safe_to_grid = True
 
     def _norm(self, x: Any, y: Any) -> Any:
